@@ -76,7 +76,7 @@ func genC18(t *rapid.T) c18Case {
 		case 0, 1, 2, 3, 4:
 			a.Kind = "validate-file"
 			if rapid.IntRange(0, 5).Draw(t, "ontoInput") == 0 {
-				a.Onto = pick(t, []string{"data", "profile", "symlink-data", "hardlink-data", "dev-full"}, "onto")
+				a.Onto = pick(t, []string{"data", "profile", "symlink-data", "hardlink-data", "dev-full", "relative-paths", "relative-paths"}, "onto")
 			}
 		case 5:
 			a.Kind = "validate-stdout"
@@ -194,6 +194,7 @@ func decideC18(c c18Case) ev.Verdict {
 			t0 := time.Now()
 			args := []string{"validate", pfiles[a.P], dfiles[a.D]}
 			target := out
+			relative := false
 			if a.Kind == "validate-file" {
 				alias := filepath.Join(dir, "alias.jsonld")
 				_ = os.Remove(alias)
@@ -210,6 +211,14 @@ func decideC18(c c18Case) ev.Verdict {
 					if os.Link(dfiles[a.D], alias) == nil {
 						target = alias
 					}
+				case "relative-paths":
+					// every path relative to the working directory, the data in a directory of its own: the output path
+					// means what it means when the command starts
+					sub := filepath.Join(dir, "in")
+					_ = os.MkdirAll(sub, 0o755)
+					_ = os.WriteFile(filepath.Join(sub, "data.jsonld"), []byte(c.Docs[a.D]), 0o644)
+					args = []string{"validate", filepath.Base(pfiles[a.P]), filepath.Join("in", "data.jsonld")}
+					relative = true
 				case "dev-full":
 					// a device that accepts the open and refuses every write (no space left): the report cannot be
 					// written, which is a failure like any other
@@ -223,9 +232,21 @@ func decideC18(c c18Case) ev.Verdict {
 					before = readState(target)
 					v.Labels = append(v.Labels, "output-path-is-an-input:"+a.Onto)
 				}
-				args = append(args, target)
+				if relative {
+					args = append(args, filepath.Base(out))
+					v.Labels = append(v.Labels, "relative-paths-data-in-a-subdirectory")
+				} else {
+					args = append(args, target)
+				}
 			}
-			so, se, exit, err := runACV(args...)
+			var so, se string
+			var exit int
+			var err error
+			if relative {
+				so, se, exit, err = runACVIn(dir, args...)
+			} else {
+				so, se, exit, err = runACV(args...)
+			}
 			t1 := time.Now()
 			if err != nil {
 				return ev.Verdict{Discard: true, Detail: err.Error(), Obs: map[string]int{"helper_failures": 1}}
